@@ -275,7 +275,7 @@ func (g *Gen) attachedCall(label string, dest []byte) [][]byte {
 }
 
 func (g *Gen) callType(label string, caller []byte) int {
-	if !vmcommon.IsSmartContractAddress(caller) {
+	if !refIsSC(caller) {
 		return 0
 	}
 	return pickFrom(g, label, []int{0, 0, 0, 1, 2, 3})
@@ -327,14 +327,14 @@ func (g *Gen) gasFor(c *Call) {
 	case "2^63":
 		c.Gas = 1 << 63
 	}
-	if vmcommon.IsSmartContractAddress(c.Caller) {
+	if refIsSC(c.Caller) {
 		c.GasLocked = pickFrom(g, "gaslocked", []uint64{0, 0, 17})
 	}
 }
 
 func (g *Gen) sysCall(shard int, fn string, rcv []byte, args ...[]byte) *Call {
 	g.Layer = "sys"
-	return &Call{Shard: shard, Fn: fn, Caller: cp(vmcommon.ESDTSCAddress), Rcv: cp(rcv), Args: hbs(args...), Gas: pickFrom(g, "sysgas", []uint64{0, 50000})}
+	return &Call{Shard: shard, Fn: fn, Caller: cp(refESDTSC), Rcv: cp(rcv), Args: hbs(args...), Gas: pickFrom(g, "sysgas", []uint64{0, 50000})}
 }
 
 func (g *Gen) selfCall(fn string, caller []byte, args ...[]byte) *Call {
@@ -559,7 +559,17 @@ func (g *Gen) byKind(kind string) Op {
 			fn = vmcommon.BuiltInFunctionESDTUnPause
 		}
 		sh := g.pick("pause-shard", m.NShards)
-		return callOp(g.sysCall(sh, fn, vmcommon.SystemAccountAddress, g.tokenOfKind("pause-token", "F", "SFT", "NFT")))
+		// the metachain broadcasts a global setting to every shard by addressing the system account with its last
+		// byte replaced by the shard id (that is why the classifier compares 30 bytes only)
+		rcv := cp(refSystemAccount)
+		switch g.pick("pause-rcv", 4) {
+		case 1, 2:
+			rcv[31] = byte(sh)
+		case 3:
+			rcv[30], rcv[31] = byte(g.pick("pause-rcv-30", 256)), byte(g.pick("pause-rcv-31", 256))
+		}
+		g.Shape = append(g.Shape, sprintf("pause-rcv-canonical=%v", bytes.Equal(rcv, refSystemAccount)))
+		return callOp(g.sysCall(sh, fn, rcv, g.tokenOfKind("pause-token", "F", "SFT", "NFT")))
 	case "handover":
 		var cands [][2][]byte
 		for _, tok := range m.sortedTokens() {
@@ -871,7 +881,7 @@ func (g *Gen) genMintBurn(kind string) *Call {
 		} else {
 			who, token = g.addr("bu-who"), g.tokenOfKind("bu-token", "F")
 		}
-		c := &Call{Shard: g.shard(who), Fn: vmcommon.BuiltInFunctionESDTBurn, Caller: cp(who), Rcv: cp(vmcommon.ESDTSCAddress), Args: hbs(token, g.amount("bu-amount", m.acc(g.shard(who), who).bal(string(token))))}
+		c := &Call{Shard: g.shard(who), Fn: vmcommon.BuiltInFunctionESDTBurn, Caller: cp(who), Rcv: cp(refESDTSC), Args: hbs(token, g.amount("bu-amount", m.acc(g.shard(who), who).bal(string(token))))}
 		c.CallType = g.callType("bu-type", who)
 		g.gasFor(c)
 		return c
